@@ -49,12 +49,19 @@ spec.cls('TBRMMData', fields={
 
 def data_inv(d):
   """What TBRMMData.__init__ establishes and no method changes."""
-  tbl = unwrap(d.geo_eligibility.data)
+  gobj = d.geo_eligibility
+  notnone = z3.BoolVal(True)
+  if isinstance(gobj, VOpt):          # right after the constructor
+    from mmverif.engine.symexec import ObjView as _OV
+    notnone = z3.Not(gobj.none)
+    gobj = _OV(d._ctx, gobj.val, d._heap)
+  tbl = unwrap(gobj.data)
   panel = unwrap(d.df)
   share = unwrap(d.geo_share)
   must_exclude = z3.SetDifference(z3.SetDifference(
       tbl.cols['exclude'], tbl.cols['control']), tbl.cols['treatment'])
   return And(
+      notnone,
       SetEq(d.geos_in_data, panel.labels.elems),
       SetEq(share.labels.elems, panel.labels.elems),
       Subset(tbl.rows, d.geos_in_data),
@@ -197,3 +204,229 @@ spec.inline.add('TBRMMData.geo_index')
 LEMMAS = []
 FUNCTIONS = ['TBRMMData.geo_index.setter', 'TBRMMData.aggregate_time_series',
              'TBRMMData.aggregate_geo_share']
+
+# ---------------------------------------------------------------------------
+# TBRMMData.__init__ (C15): the reconcile-or-reject logic and the data
+# invariant every later contract assumes.  The pandas steps before it (copy,
+# pivot, mean, sort, share) are ledger entries: what is proved is the set
+# algebra on top of them, not what the pivot computes.
+
+from mmverif.engine import frame_ledger as _fl                  # noqa: E402
+from mmverif.engine.lib import ASSUMPTIONS as _ASSUME, lib as _lib  # noqa
+from mmverif.engine.pandas_ledger import VBound as _VBound      # noqa: E402
+from mmverif.engine.symexec import RaiseSig as _RaiseSig        # noqa: E402
+
+RawSort = sort_named('RawFrame')
+RAW_COLS = z3.Function('RAW_COLS', RawSort, z3.SetSort(I))   # column names
+RAW_GEOS = z3.Function('RAW_GEOS', RawSort, z3.SetSort(I))   # str(geo) values
+PIVOT = z3.Function('PIVOT', RawSort, I, sort_named('PanelData'))
+ROWMEAN = z3.Function('ROWMEAN', sort_named('PanelData'), I, z3.RealSort())
+
+_ASSUME.extend([
+    'pandas (TBRMMData.__init__): df.copy() and df.geo.astype(str) keep the '
+    'column names and the set of geo values; set(df.columns) is the set of '
+    'column names; pivot_table(values, index="geo", columns="date", '
+    'fill_value=0) has one row per distinct geo value (labels without '
+    'duplicates); mean(axis=1) is a Series over the same labels; '
+    'sort_values keeps the label set; Series / scalar keeps the labels; '
+    'pd.DataFrame({"geo": list, "control": 1, "treatment": 1, "exclude": 1}) '
+    'is an eligibility table with one all-ones row per list entry',
+    'GeoEligibility.__init__ (ASSUMED, validation not verified: bounded '
+    'monitor C16): either raises ValueError or stores the given table '
+    'unchanged as .data',
+])
+
+
+class VRaw(V):
+  """The long-format input frame of TBRMMData (value semantics)."""
+  kind = 'rawframe'
+
+  def __init__(self, t):
+    self.t = t
+
+  def flatten(self):
+    return [self.t]
+
+  def py_getattr(self, ex, name, node):
+    if name == 'copy':
+      return _VBound(lambda ex_, a, k, n: VRaw(self.t))
+    if name == 'columns':
+      return VRawCols(self)
+    if name == 'geo':
+      return VRawGeo(self)
+    if name == 'pivot_table':
+      return _VBound(self._pivot)
+    ex.unsupported(node, 'raw frame attribute %s' % name)
+
+  def py_setattr(self, ex, name, value, node):
+    if name == 'geo' and isinstance(value, VRawGeo) and value.frame.t.eq(
+        self.t):
+      return VRaw(self.t)          # same columns, same geo values (as str)
+    ex.unsupported(node, 'raw frame attribute store %s' % name)
+
+  def _pivot(self, ex, args, kwargs, node):
+    ctx = ex.ctx
+    ok = (isinstance(kwargs.get('index'), VStr) and kwargs['index'].s == 'geo'
+          and isinstance(kwargs.get('columns'), VStr) and
+          kwargs['columns'].s == 'date' and 'values' in kwargs and not args)
+    if not ok:
+      ex.unsupported(node, 'pivot_table arguments')
+    col = _fl.col_term(ex, kwargs['values'], node)
+    labels = pl.fresh_seq(ctx, 'pivot.labels')
+    ctx.assume(labels.elems == RAW_GEOS(self.t))
+    return VPivot(labels, PIVOT(self.t, col))
+
+
+class VRawCols(V):
+  kind = 'rawcols'
+
+  def __init__(self, frame):
+    self.frame = frame
+
+  def py_toset(self, ex, node):
+    return VSet(RAW_COLS(self.frame.t), I)
+
+
+class VRawGeo(V):
+  kind = 'rawgeo'
+
+  def __init__(self, frame):
+    self.frame = frame
+
+  def py_getattr(self, ex, name, node):
+    if name == 'astype':
+      return _VBound(lambda ex_, a, k, n: VRawGeo(self.frame))
+    ex.unsupported(node, 'geo column attribute %s' % name)
+
+
+class VPivot(pl.VPanel):
+  """The geo x date panel straight out of pivot_table."""
+
+  def py_getattr(self, ex, name, node):
+    if name == 'mean':
+      tag = self.tag
+      return _VBound(lambda ex_, a, k, n: VMeans(
+          self.labels, lambda g: ROWMEAN(tag, g)))
+    return pl.VPanel.py_getattr(self, ex, name, node)
+
+
+class VMeans(pl.VSeries):
+  """Series of row means: sort_values / index / division by a scalar."""
+
+  def _sort_values(self, ex, args, kwargs, node):
+    out = pl.VSeries._sort_values(self, ex, args, kwargs, node)
+    return VMeans(out.labels, out.val)
+
+  def py_tolist(self, ex, node):
+    return self.labels
+
+  def total(self):
+    return VReal(z3.Function('SUM_MEANS', I, z3.RealSort())(self.labels.sid),
+                 True)
+
+
+class TRaw(Shape):
+
+  def fresh(self, ctx, name):
+    return VRaw(z3.Const(ctx.sym(name), RawSort))
+
+
+@_lib('pandas.DataFrame')
+def _pd_dataframe(ex, args, kwargs, node):
+  """pd.DataFrame({'geo': list, 'control': 1, 'treatment': 1, 'exclude': 1})."""
+  from mmverif.engine.symexec import VConstDict
+  d = args[0] if args else None
+  if not (isinstance(d, VConstDict) and set(d.d) == {
+      'geo', 'control', 'treatment', 'exclude'}):
+    ex.unsupported(node, 'pd.DataFrame argument')
+  geos = d.d['geo']
+  for k in ('control', 'treatment', 'exclude'):
+    v = d.d[k]
+    if not (isinstance(v, VInt) and z3.is_int_value(v.t) and
+            v.t.as_long() == 1):
+      ex.unsupported(node, 'pd.DataFrame column %s' % k)
+  if not isinstance(geos, VSeq) or geos.elems is None:
+    ex.unsupported(node, 'pd.DataFrame geo column')
+  rows = geos.elems
+  return pl.VEligTable(rows, {'control': rows, 'treatment': rows,
+                              'exclude': rows}, geos, False)
+
+
+def _init_missing(s):
+  """Some geo of the given table that cannot be excluded is not in the
+  data."""
+  ge0 = unwrap(s.geo_eligibility)
+  tbl = unwrap(ObjView(s.ctx, ge0.val, None).data)
+  need = z3.SetDifference(tbl.rows, tbl.cols['exclude'])
+  return z3.And(z3.Not(ge0.none),
+                z3.Not(z3.IsSubset(need, RAW_GEOS(unwrap(s.df).t))))
+
+
+def _init_cols_missing(s):
+  req = z3.SetAdd(z3.SetAdd(z3.SetAdd(
+      z3.EmptySet(I), _fl.colcode('date')), _fl.colcode('geo')),
+                  _fl.col_term(None, unwrap(s.response_column), None))
+  return z3.Not(z3.IsSubset(req, RAW_COLS(unwrap(s.df).t)))
+
+
+def _init_table(s):
+  """The stored eligibility table is the given one restricted to the geos in
+  the data (all-ones rows for every geo when none is given)."""
+  ge0 = unwrap(s.geo_eligibility)
+  gobj = s.self.geo_eligibility
+  if isinstance(gobj, VOpt):
+    gobj = ObjView(s.ctx, gobj.val, None)
+  new = unwrap(gobj.data)
+  geos = RAW_GEOS(unwrap(s.df).t)
+  old = unwrap(ObjView(s.ctx, ge0.val, None).data)
+  keep = z3.SetIntersect(old.rows, geos)
+  given = z3.And(new.rows == keep, *[
+      new.cols[k] == z3.SetIntersect(old.cols[k], geos)
+      for k in ('control', 'treatment', 'exclude')])
+  default = z3.And(new.rows == geos, *[
+      new.cols[k] == geos for k in ('control', 'treatment', 'exclude')])
+  return z3.If(ge0.none, default, given)
+
+
+def _eff_rows(t):
+  """Rows of an eligibility table value: those selected by .loc[list]."""
+  return t.labels.elems if t.labels is not None else t.rows
+
+
+ge.spec.contract(
+    'GeoEligibility.__init__', params={'df': pl.TEligTable()},
+    modifies=['self.*'], props=('C15', 'C16'),
+    assumed='ASSUMED (validation of the table is not verified; acceptance '
+            'predicate covered by the exhaustive bounded monitor of C16): '
+            'raises ValueError or stores the given table as .data',
+    raises_only=['ValueError'],
+    ensures=[('the table is stored unchanged (for a .loc[list] selection: '
+              'the selected rows)', lambda s: z3.And(
+                  unwrap(s.self.data).rows == _eff_rows(unwrap(s.df)),
+                  *[unwrap(s.self.data).cols[k] == z3.SetIntersect(
+                      unwrap(s.df).cols[k], _eff_rows(unwrap(s.df)))
+                    for k in ('control', 'treatment', 'exclude')]))])
+
+spec.contract(
+    'TBRMMData.__init__',
+    params={'df': TRaw(), 'response_column': TInt(),
+            'geo_eligibility': TOpt(TObj('GeoEligibility'))},
+    modifies=['self.*'], props=('C15', 'C01', 'C09'),
+    raises_only=['ValueError'],
+    ensures=[
+        ('C15 the data invariant every later contract assumes: table geos '
+         'are in the data, assignable = table geos that are not '
+         'exclude-only, share and panel over the geos in the data',
+         lambda s: data_inv(s.self)),
+        ('C15 the stored eligibility table is the given one restricted to '
+         'the geos in the data (all-ones rows when none is given)',
+         _init_table),
+        ('C15 accepted only if every geo that cannot be excluded is in the '
+         'data and the required columns are present',
+         lambda s: z3.And(z3.Not(_init_missing(s)),
+                          z3.Not(_init_cols_missing(s)))),
+        ('geos in the data are the geo values of the frame',
+         lambda s: S(s.self.geos_in_data) == RAW_GEOS(unwrap(s.df).t)),
+    ])
+
+FUNCTIONS.append('TBRMMData.__init__')
